@@ -9,6 +9,14 @@ Init == shard \in 0 .. 63 /\ t = 0
 Next == t = 0 /\ t' \in {i \in DOMAIN Recs : i % 64 = shard} /\ shard' = shard
 R == Recs[t]
 
+(* tuples with a room partition inside: compare element-wise, the room element up to ordering *)
+SameNested ==
+    LET tm == R.case.term  d == R.decoded  v == R.case.v IN
+    \A e \in DOMAIN tm.elems :
+        IF tm.elems[e].c \in {"Rooms", "ValuedRooms"}
+        THEN Len(d[e]) = 1 /\ Same(tm.elems[e], d[e][1], v[e][1])
+        ELSE d[e] = v[e]
+
 Verdict ==
     IF R.ser = "raised" /\ R.exc # "ValueError" THEN "serializer:serialize-crashed-with-" \o R.exc
     ELSE IF R.ser \in {"raised", "none"} THEN
@@ -18,7 +26,8 @@ Verdict ==
     ELSE IF R.des = "raised" THEN "serializer:cannot-read-back-its-own-text-" \o R.exc
     ELSE IF R.des = "none" THEN "serializer:cannot-read-back-its-own-text"
     ELSE IF R.consumed # Len(R.text) THEN "serializer:does-not-consume-exactly-the-produced-characters"
-    ELSE IF ~Same(R.case.term, R.decoded, R.case.v) THEN "serializer:round-trip-changes-the-value"
+    ELSE IF R.case.fam = "nested" /\ ~SameNested THEN "serializer:round-trip-changes-the-value"
+    ELSE IF R.case.fam # "nested" /\ ~Same(R.case.term, R.decoded, R.case.v) THEN "serializer:round-trip-changes-the-value"
     ELSE "ok"
 
 (* diagnostic only: does the real text equal the transcription's text? *)
